@@ -8,7 +8,7 @@ from .. import machine as M
 from ..core import parallel_map
 
 DRIVERS = ["drv_machine"]
-GENERATED = ["Handlers", "Markers", "InputPath"]
+GENERATED = ["Handlers", "Markers", "InputPath", "ViewSites"]
 
 
 def prefix_run(ctx, args, lines, ks, pager=False, expect=None):
